@@ -125,3 +125,73 @@ func groupFramesOnly(g gor) string {
 	}
 	return strings.Join(keep, " | ")
 }
+
+// ---- whole-process quiescence (used for the Group adapters, whose activity runs through goroutines of
+// pkg/wrap, the routers and the resource models as well)
+
+// allGoroutines parses one stop-the-world dump into (id, state) of every goroutine except the caller
+// (always the first block of the dump).
+func allGoroutines() []gor {
+	var out []gor
+	for k, blk := range bytes.Split(dumpAll(), []byte("\n\n")) {
+		if k == 0 || !bytes.HasPrefix(blk, []byte("goroutine ")) {
+			continue
+		}
+		nl := bytes.IndexByte(blk, '\n')
+		if nl < 0 {
+			nl = len(blk)
+		}
+		rest := strings.TrimPrefix(string(blk[:nl]), "goroutine ")
+		sp := strings.IndexByte(rest, ' ')
+		if sp < 0 {
+			continue
+		}
+		id, err := strconv.ParseInt(rest[:sp], 10, 64)
+		if err != nil {
+			continue
+		}
+		st := strings.TrimPrefix(rest[sp+1:], "[")
+		if i := strings.IndexAny(st, ",]"); i >= 0 {
+			st = st[:i]
+		}
+		out = append(out, gor{ID: id, State: st})
+	}
+	return out
+}
+
+func goroutineIDs() map[int64]struct{} {
+	m := map[int64]struct{}{}
+	for _, g := range allGoroutines() {
+		m[g.ID] = struct{}{}
+	}
+	return m
+}
+
+// waitQuietAll waits until every goroutine that is not in base (and is not the caller) is parked on a
+// channel, select, or WaitGroup: then nothing in the process can move before the caller acts.
+func waitQuietAll(base map[int64]struct{}) bool {
+	deadline := time.Now().Add(20 * time.Second)
+	for spin := 0; ; spin++ {
+		quiet := true
+		for _, g := range allGoroutines() {
+			if _, ok := base[g.ID]; ok {
+				continue
+			}
+			if !parked(g.State) {
+				quiet = false
+				break
+			}
+		}
+		if quiet {
+			return true
+		}
+		if time.Now().After(deadline) {
+			return false
+		}
+		if spin < 50 {
+			runtime.Gosched()
+		} else {
+			time.Sleep(20 * time.Microsecond)
+		}
+	}
+}
